@@ -69,6 +69,7 @@ type c22case struct {
 	conf   string // mem (GOB) | mpk (persistent, MessagePack)
 	fields []c22field
 	desc   string
+	first  []any // when set: the model is saved with these field values first, then with fields' values (overwrite)
 }
 
 func (c c22case) build() (reflect.Type, reflect.Value) {
@@ -134,14 +135,28 @@ func c22cases(quick bool) []c22case {
 						if withMeta {
 							fs = append(fs, meta...)
 						}
-						out = append(out, c22case{"catalog", "single-value", conf, fs, fmt.Sprintf("value %s #%d%s meta=%v", ty.name, vi, om, withMeta)})
+						out = append(out, c22case{"catalog", "single-value", conf, fs, fmt.Sprintf("value %s #%d%s meta=%v", ty.name, vi, om, withMeta), nil})
 					}
 				}
 			}
 		}
+		// overwrite: the model saved twice with different values (no omitempty, which is documented to keep the old value)
+		for _, ty := range types {
+			for vi := range ty.vals {
+				for vj, v2 := range ty.vals {
+					if vi == vj || vi == 0 {
+						continue // first save non-zero, second save zero or another non-zero value
+					}
+					out = append(out,
+						c22case{"catalog", "single-value", conf, []c22field{keyF, {"value", ty.typ, v2}}, fmt.Sprintf("overwrite value %s #%d -> #%d", ty.name, vi, vj), []any{"k1", ty.vals[vi]}},
+						c22case{"catalog", "map-body", conf, []c22field{keyF, {"name", ty.typ, v2}, {"Count", intT, int32(2)}}, fmt.Sprintf("overwrite body name:%s #%d -> #%d", ty.name, vi, vj), []any{"k1", ty.vals[vi], int32(1), nil}},
+						c22case{"profile", "profile", conf, []c22field{{"name", ty.typ, v2}, {"Count", intT, int32(2)}}, fmt.Sprintf("overwrite profile %s #%d -> #%d", ty.name, vi, vj), []any{ty.vals[vi], int32(1), nil}})
+				}
+			}
+		}
 		// key-only
-		out = append(out, c22case{"catalog", "key-only", conf, []c22field{keyF}, "key only"})
-		out = append(out, c22case{"catalog", "key-only", conf, append([]c22field{keyF}, meta...), "key + metadata"})
+		out = append(out, c22case{"catalog", "key-only", conf, []c22field{keyF}, "key only", nil})
+		out = append(out, c22case{"catalog", "key-only", conf, append([]c22field{keyF}, meta...), "key + metadata", nil})
 		// map-body catalogs: one body field with every tag name x type x value
 		for _, n := range c22names {
 			for _, ty := range types {
@@ -150,7 +165,7 @@ func c22cases(quick bool) []c22case {
 						continue
 					}
 					for _, om := range []string{"", ",omitempty"} {
-						out = append(out, c22case{"catalog", "map-body", conf, []c22field{keyF, {n + om, ty.typ, v}}, fmt.Sprintf("body %s:%s #%d%s", n, ty.name, vi, om)})
+						out = append(out, c22case{"catalog", "map-body", conf, []c22field{keyF, {n + om, ty.typ, v}}, fmt.Sprintf("body %s:%s #%d%s", n, ty.name, vi, om), nil})
 					}
 				}
 			}
@@ -162,9 +177,9 @@ func c22cases(quick bool) []c22case {
 					continue
 				}
 				fs := []c22field{keyF, {n1, strT, "s1"}, {n2, intT, int32(42)}}
-				out = append(out, c22case{"catalog", "map-body", conf, fs, fmt.Sprintf("body %s:string + %s:int32", n1, n2)})
+				out = append(out, c22case{"catalog", "map-body", conf, fs, fmt.Sprintf("body %s:string + %s:int32", n1, n2), nil})
 				if !quick {
-					out = append(out, c22case{"catalog", "map-body", conf, append(fs, meta...), fmt.Sprintf("body %s:string + %s:int32 + metadata", n1, n2)})
+					out = append(out, c22case{"catalog", "map-body", conf, append(fs, meta...), fmt.Sprintf("body %s:string + %s:int32 + metadata", n1, n2), nil})
 				}
 			}
 		}
@@ -172,7 +187,7 @@ func c22cases(quick bool) []c22case {
 		for _, ty := range types {
 			for vi, v := range ty.vals {
 				for _, tg := range []string{"", "name", "name,omitempty", "keywords", "values,omitempty"} {
-					out = append(out, c22case{"profile", "profile", conf, []c22field{{tg, ty.typ, v}, {"Count", intT, int32(7)}}, fmt.Sprintf("profile %s #%d tag=%q", ty.name, vi, tg)})
+					out = append(out, c22case{"profile", "profile", conf, []c22field{{tg, ty.typ, v}, {"Count", intT, int32(7)}}, fmt.Sprintf("profile %s #%d tag=%q", ty.name, vi, tg), nil})
 				}
 			}
 		}
@@ -186,8 +201,8 @@ func TestC22(t *testing.T) {
 	r := kit.Start("C22", "exploration")
 	defer r.Finish()
 	cases := c22cases(r.Quick())
-	r.Rule = fmt.Sprintf("%d models built with reflect.StructOf and saved/read through the real Go SDK (CatalogSave+CatalogRead, ProfileSave+ProfileRead) against the in-process server (wire-format client), on an in-memory swamp with the default GOB encoding and on a persistent swamp registered with MessagePack encoding: single-value catalogs (19 field types x zero and non-zero values x omitempty x with/without the five metadata fields), key-only catalogs, map-body catalogs (one body field: %d tag names - plain ones and ones that contain a reserved word as a substring: keywords, monkey, values, valueHistory, expireAtHint, createdAtMs, createdByUser, updatedAtMs, updatedByUser, omitemptyFlag, deletableThing, and reserved words in another letter case: Key, Value, VALUE, ExpireAt, CreatedBy, updatedat - x 19 types x values x omitempty; two body fields: every ordered pair of tag names), profiles (19 types x values x 5 tag variants). Oracle: the model read back into a fresh value of the same type equals the saved model field by field (nil == empty for slices and maps, times as instants); no error, no panic. Non-trivial = models with at least one non-zero non-key field", len(cases), len(c22names))
-	r.Assumptions = []string{"fresh swamp per model (overwrite semantics of omitempty are not part of the round trip)", "struct types come from reflect.StructOf: exported fields F0..Fn, tags as enumerated"}
+	r.Rule = fmt.Sprintf("%d models built with reflect.StructOf and saved/read through the real Go SDK (CatalogSave+CatalogRead, ProfileSave+ProfileRead) against the in-process server (wire-format client), on an in-memory swamp with the default GOB encoding and on a persistent swamp registered with MessagePack encoding: single-value catalogs (19 field types x zero and non-zero values x omitempty x with/without the five metadata fields), key-only catalogs, map-body catalogs (one body field: %d tag names - plain ones and ones that contain a reserved word as a substring: keywords, monkey, values, valueHistory, expireAtHint, createdAtMs, createdByUser, updatedAtMs, updatedByUser, omitemptyFlag, deletableThing, and reserved words in another letter case: Key, Value, VALUE, ExpireAt, CreatedBy, updatedat - x 19 types x values x omitempty; two body fields: every ordered pair of tag names), profiles (19 types x values x 5 tag variants); overwrite cases (single-value, one body field, profile field, without omitempty: saved with a non-zero value, then with the zero value or another value). Oracle: the model read back into a fresh value of the same type equals the saved model field by field (nil == empty for slices and maps, times as instants); no error, no panic. Non-trivial = models with at least one non-zero non-key field", len(cases), len(c22names))
+	r.Assumptions = []string{"fresh swamp per model; a second save of fields tagged omitempty is not enumerated (documented to keep the old value)", "struct types come from reflect.StructOf: exported fields F0..Fn, tags as enumerated"}
 	r.Parallel(16, "TestC22", func() {
 		type res struct {
 			saveErr, readErr, pan string
@@ -219,6 +234,24 @@ func TestC22(t *testing.T) {
 					}
 				}
 				back := reflect.New(typ)
+				if c.first != nil {
+					v0 := reflect.New(typ)
+					for fi, fv := range c.first {
+						if fv != nil {
+							v0.Elem().Field(fi).Set(reflect.ValueOf(fv))
+						}
+					}
+					var err error
+					if c.api == "catalog" {
+						_, err = h.CatalogSave(bg, sw, v0.Interface())
+					} else {
+						err = h.ProfileSave(bg, sw, v0.Interface())
+					}
+					if err != nil {
+						o.saveErr = "first save: " + err.Error()
+						return
+					}
+				}
 				if c.api == "catalog" {
 					if _, err := h.CatalogSave(bg, sw, v.Interface()); err != nil {
 						o.saveErr = err.Error()
